@@ -808,6 +808,9 @@ class Interp:
             if len(rs) == 1 and z3.is_bool(rs[0].ret):
                 st["pc_aux"] += list(rs[0].pc)
                 return z3.And(c.disc(src) == 1, rs[0].ret)
+        if (re.search(r"Option::<.*>::take$", raw) or name.endswith("Option::take")) and len(args) == 1 and not isinstance(a0, Tup):
+            # Option::take returns the value the place held (references are identified with referents; the write-back of None is not modelled)
+            return a0
         if re.search(r"Result::<.*>::map_err::<", raw) or name.endswith("Result::map_err"):
             # Result::map_err maps the Err payload only: Ok-ness and the Ok payload are preserved (the closure is havocked)
             src = self.as_u(a0)
